@@ -13,9 +13,9 @@ EXPLANATION = ('What the code asks the filesystem for, on every path: (R09.1) th
                'lookup, after open:Ok every path to the hit exit runs the re-touch probe; after a successful stat every such path '
                'tests a predicate implied by atime < mtime (decided over the three orderings), and on its true edge the atime update '
                'follows; (R09.4) the insertion stamp is utimens(source, atime = from_unix_time(secs(now) - D, nanos(now)), mtime = '
-               'now) with D a constant >= 3 s; (R09.5) put on an existing key touches it (= R04.2). Timestamp behaviour of real '
+               'now) with D a constant >= 3 s; (R09.5) put on an existing key touches it (= R04.2); (R09.6) the read mark maintenance tests is true for atime == mtime, which is what a touch may leave on a coarse-granularity filesystem. Timestamp behaviour of real '
                'filesystems is not decided.')
-FLOORS = {'R09.1': 8, 'R09.2': 2, 'R09.3': 4, 'R09.4': 2, 'R09.5': 1}
+FLOORS = {'R09.6': 1, 'R09.1': 8, 'R09.2': 2, 'R09.3': 4, 'R09.4': 2, 'R09.5': 1}
 
 LOOKUPS = ['plain::Cache::get', 'plain::Cache::touch', 'sharded::Cache::get', 'sharded::Cache::touch', 'raw_cache::touch',
            'raw_cache::ensure_file_touched']
@@ -171,6 +171,18 @@ def r09_5(ctx):
     return [inst('R09.5', i['key'].split('|', 1)[1], i['ok'], i['detail']) for i in c04.r04_2(ctx) if 'touch' in i['key']]
 
 
+def r09_6(ctx):
+    """marking is effective: the touches stamp atime = the file's own mtime, or now (which on a coarse-granularity
+    filesystem can equal mtime), so the read mark recognised by maintenance must hold for atime == mtime."""
+    from rules import c07
+    out = []
+    for i in c07.g2(ctx):
+        if 'accessed' in i['key']:
+            out.append(inst('R09.6', 'read mark true for atime == mtime', i['ok'], i['detail'] if i['ok'] else
+                            'after a touch atime may equal mtime (same timestamp granule), but ' + i['detail']))
+    return out
+
+
 def run(ctx):
     from runner import collect
-    return collect(ctx, r09_1, r09_2, r09_3, r09_4, r09_5)
+    return collect(ctx, r09_1, r09_2, r09_3, r09_4, r09_5, r09_6)
